@@ -22,7 +22,7 @@ if TYPE_CHECKING:  # pragma: no cover
 
 
 # A wkt coordinate, e.g. '-1.0 2.0', that can be up to 4 numbers long (can include Z and M)
-_RE_COORD_STR = r'(?:-?\d{1,3}(?:\.?\d*)?(?:[eE][-+]?\d+)?\s?){2,4}\s?'
+_RE_COORD_STR = r'(?:-?\d+(?:\.\d*)?(?:[eE][-+]?\d+)?\s?){2,4}\s?'
 _RE_COORD = re.compile(_RE_COORD_STR)
 
 # A single linear ring, e.g. '(0.0 0.0, 1.0 1.0, ... )'
